@@ -1,11 +1,17 @@
 import Driver.Loop
 import IrohModel.Common.Hex
-import IrohModel.C40.Model
+import IrohModel.C40.WithHooksModel
 open IrohModel IrohModel.C40
+open IrohModel.C42 (Hook Target)
 
 def parseAlpns (s : String) : Option (List Alpn) :=
   if s = "-" then some [] else
   (s.splitOn ",").mapM (fun t => (bytesOfHex t).bind (fun b => if b.isEmpty ∨ b.length > 255 then none else some b))
+
+/-- An offer list: the primary (first) name may be `-` = empty. -/
+def parseOffer (s : String) : Option (List Alpn) :=
+  (s.splitOn ",").zipIdx.mapM (fun (t, i) =>
+    (bytesOfHex t).bind (fun b => if (b.isEmpty ∧ i ≠ 0) ∨ b.length > 255 then none else some b))
 
 def verdictOf? : Char → Option Verdict
   | 'a' => some .accept | 't' => some .retry | 'r' => some .reject | 'i' => some .ignore | _ => none
@@ -19,36 +25,85 @@ def parsePairs (s : String) : Option (List (Verdict × Verdict)) :=
     | [x, y] => do let a ← verdictOf? x; let b ← verdictOf? y; pure (a, b)
     | _ => none)
 
+def parseHook (t : String) : Option Hook :=
+  match t.toList with
+  | b :: rest =>
+    let before? : Option Bool := if b = 'a' then some true else if b = 'r' then some false else none
+    let after? : Option (Option Nat) :=
+      match rest with
+      | ['a'] => some none
+      | 'r' :: ds => (String.ofList ds).toNat?.bind (fun c => if c < 2 ^ 62 then some (some c) else none)
+      | _ => none
+    match before?, after? with
+    | some bf, some af => some ⟨bf, af⟩
+    | _, _ => none
+  | [] => none
+
+def parseHooks (s : String) : Option (List Hook) :=
+  if s = "-" then some [] else (s.splitOn ",").mapM parseHook
+
 /-- The harness' filter: the verdict pair of the dial the source address belongs to. -/
 def tableFilter (pairs : List (Verdict × Verdict)) : Filter := fun att =>
   match pairs[att.src]? with
   | some (x, y) => if att.validated then y else x
   | none => .reject
 
-def renderOutcome (o : Outcome) : String :=
+def dotted (l : List String) : String := if l.isEmpty then "-" else ".".intercalate l
+
+def renderOutcome (o : COutcome) : String :=
   let f := if o.filterCalls.isEmpty then "-" else
     String.join (o.filterCalls.map (fun (v, vd) => (if v then "1" else "0") ++ letter vd))
   let r := match o.dial with
     | .ok a => s!"ok:{hexOfBytes a}"
-    | .refused => "refused"
-    | .noalpn => "noalpn"
-    | .ignored => "ignored"
-  let h := match o.handler with
+    | .refused => "refused" | .noalpn => "noalpn" | .ignored => "ignored"
+    | .rejBefore => "rej-before" | .selfConnect => "self" | .invalidAlpn => "invalid-alpn"
+    | .rejAfter => "rej-after" | .closed c => s!"closed:{c}"
+  let race := o.dial == .rejAfter
+  let h := match o.onAccepting with
     | none => "-"
-    | some (h, a) => s!"on{h},ac{h}:{hexOfBytes a}"
-  s!"{f}|{r}|{h}"
+    | some (h, a) =>
+      if race then s!"on{h}*" else
+      match o.accept with
+      | .yes => s!"on{h},ac{h}:{hexOfBytes a}"
+      | _ => s!"on{h}"
+  let dcalls := dotted (o.dBefore.map (fun i => s!"b{i}") ++ o.dAfter.map (fun i => s!"a{i}"))
+  let acalls := match o.aAfter with
+    | none => "*"
+    | some l => dotted (l.map (fun i => s!"a{i}"))
+  s!"{f}|{r}|{h}|{dcalls}|{acalls}"
+
+structure DialSpec where
+  toSelf : Bool
+  offered : List Alpn
+
+def parseDial (t : String) : Option DialSpec :=
+  let (toSelf, rest) := if t.startsWith "@" then (true, (t.drop 1).toString) else (false, t)
+  (parseOffer rest).map (fun o => ⟨toSelf, o⟩)
 
 def handleLine (payload : String) : String :=
   match tokens payload with
   | "infra" :: _ => "infra"
-  | [r, f, d] =>
+  | r :: f :: d :: rest =>
+    let hooks? : Option (Option (List (List Hook)) × List Hook) :=
+      match rest with
+      | [] => some (none, [])
+      | [dh, ah] =>
+        match (dh.dropPrefix? "DH=").bind (fun x => (x.toString.splitOn "/").mapM parseHooks),
+              (ah.dropPrefix? "AH=").bind (fun x => parseHooks x.toString) with
+        | some dh, some ah => some (some dh, ah)
+        | _, _ => none
+      | _ => none
     match (r.dropPrefix? "R=").bind (fun x => parseAlpns x.toString),
-          (f.dropPrefix? "F="), (d.dropPrefix? "D=") with
-    | some regs, some fs, some ds =>
-      match (ds.toString.splitOn "/").mapM parseAlpns with
+          (f.dropPrefix? "F="), (d.dropPrefix? "D="), hooks? with
+    | some regs, some fs, some ds, some (dh?, ah) =>
+      match (ds.toString.splitOn "/").mapM parseDial with
       | none => "bad-input"
       | some dials =>
-        if dials.isEmpty ∨ dials.length > 4 ∨ dials.any (fun o => o.isEmpty ∨ o.length > 4) ∨ regs.length > 6 then
+        let dhs : List (List Hook) := match dh? with
+          | some dh => dh
+          | none => dials.map (fun _ => [])
+        if dials.isEmpty ∨ dials.length > 4 ∨ dials.any (fun o => o.offered.isEmpty ∨ o.offered.length > 4)
+            ∨ regs.length > 6 ∨ dhs.length ≠ dials.length ∨ dhs.any (·.length > 4) ∨ ah.length > 4 then
           "bad-input" else
         let filter? : Option (Option Filter) :=
           if fs.toString = "-" then some none else
@@ -58,10 +113,10 @@ def handleLine (payload : String) : String :=
         match filter? with
         | none => "bad-input"
         | some filter =>
-          let m := build regs
-          let outs := dials.zipIdx.map (fun (offered, i) => renderOutcome (dispatch m filter i offered))
+          let outs := (dials.zip dhs).zipIdx.map (fun ((dial, dh), i) =>
+            renderOutcome (connectRouted (if dial.toSelf then .self else .peer) regs filter i dial.offered dh ah))
           " ; ".intercalate outs
-    | _, _, _ => "bad-input"
+    | _, _, _, _ => "bad-input"
   | _ => "bad-input"
 
 def main : IO Unit := Driver.run handleLine
